@@ -386,10 +386,17 @@ def run(tier, seed):
                       "Tree/Range.v Ordered / LoaderAccepts as the meaning of `specification order` / `what the loader checks about a child list`"],
         checker_cmd="make -C coq Properties/C07.vo && Print Assumptions per theorem && sweep/history correspondence (checks/c07.py)",
         assumptions=["single-threaded semantics (locks always succeed)", "every handle is retained (no deallocation)",
-                     "C07_order_inv is proved for create_sub_element[_at] and remove only; named/copy/move are tied by correspondence and checked by the order oracle",
-                     "the reload clause (serialize + lenient load) is checked by oracle on the implementation, not proved; recorded exceptions are the known findings printed"],
+                     "the order invariant is proved per operation (create, named, get_or_create, copy, move, remove) for the version in force when the operation runs; "
+                     "it is FALSE for the current min_version after a file of another version joins (C07_order_history_refuted = finding mixed-version-files); "
+                     "copy needs Closed w (part of C03's invariant); move: the combination `parent link names h but models differ` is excluded",
+                     "the reload clause: proved up to the bridge WorldOK -> StrictValid-minus-required-attributes of the per-file projection and its composition with C01 under "
+                     "the hypothesis RootCanon; RootCanon of the projection and `f_serialize writes serialize_file of the projection` are not derived; "
+                     "on the implementation the clause is checked by oracle, recorded exceptions are the known findings printed"],
         extra={"theorem_kinds": {"C07_SpecWF_real": "F", "C07_range_exact": "U", "C07_range_complete": "U", "C07_range_err": "U", "C07_range_bounds": "U",
-                                 "C07_create_iff_range": "U", "C07_create_err": "U", "C07_create_named_only_in_range": "U", "C07_loader_checks_quiet": "U", "C07_allowed_iff_range": "U", "C07_allowed_iff": "U",
+                                 "C07_create_iff_range": "U", "C07_create_err": "U", "C07_create_named_only_in_range": "U", "C07_loader_checks_quiet": "U", "C07_create_named_iff": "U",
+                                 "C07_order_inv_named": "U", "C07_order_inv_copy": "U", "C07_order_inv_move": "U",
+                                 "C07_reload_bridge": "U", "C07_reload_clean_composed": "U (hypotheses: RootCanon of C01, not derived)",
+                                 "C07_worldok_nonvacuous": "F", "C07_order_history_refuted": "F-witness", "C07_order_history_was_ordered": "F", "C07_allowed_iff_range": "U", "C07_allowed_iff": "U",
                                  "C07_order_inv_partial": "P", "C07_ordered_loader_accepts": "U", "C07_loader_enforces_order_refuted": "F-witness",
                                  "C07_copy_resolves_type_refuted": "F-witness", "C07_ordered_nonvacuous": "F"}})
 
